@@ -148,14 +148,22 @@ CHECKS = {
             "and writing, .ts is read-only, an empty list yields nothing-to-write; for ALL representable documents the SubRip -> WebVTT "
             "and WebVTT -> SubRip conversions (composition of the codec models through the conversion of Model/Conv.v, whose bytes are "
             "compared with the library's on every generated styled document) give a destination that reads back with the same number "
-            "of cues, in order, times truncated to the millisecond and the same text per line. The 7x6 conversion matrix is decided on "
+            "of cues, in order, times truncated to the millisecond and the same text per line; with operations in between (Model/ConvOps.v "
+            "composes the codec models with the operation models of C09-C15; its bytes are compared with the library's on every generated "
+            "styled SubRip document x sequence of 0..4 operations incl. merge with a second document): for ALL representable SubRip documents "
+            "and ALL sequences of sync/fragment/unfragment/order/optimize/linear correction/merge every resulting cue carries the lines of a "
+            "source cue and, when the times produced are non-negative, the converted SubRip or WebVTT file reads back as exactly the "
+            "transformed list. The 7x6 conversion matrix is decided on "
             "the implementation: sources rendered by the harness's own encoders (SubRip renderer, minimal WebVTT/SSA/TTML renderers, an "
             "EBU STL encoder for display standards 0/1/2, a teletext-in-TS encoder through the astits muxer) from ground-truth cue lists, "
             "0..4 operations with random parameters through the library and one through the built CLI binary, the destination re-read and "
             "compared (count, order, times truncated to the destination unit, text without white space) with the composed reference "
             "semantics of the operations; extension dispatch compared with the extracted model.",
             "Rocq proof of the dispatch model and of the SubRip/WebVTT conversions (partial) + conversion matrix through file API and CLI on the implementation",
-            "partial: the pairwise theorems exist for the SubRip/WebVTT pairs only (the other codec models are being built); coloured "
+            "partial: the pairwise theorems exist for the SubRip/WebVTT pairs only (the other codec models are being built); the "
+            "operation-sequence theorems go through Kit/Float64.v (linear correction), hence the standard-library Reals axioms that Flocq "
+            "brings in (listed in the evidence); the content tag of Model/ConvOps.v (source index carried in the style-pointer field, which "
+            "the SubRip/WebVTT readers never set) is a modelling device checked by the byte comparison; coloured "
             "runs are outside the WebVTT representability predicate; in the matrix texts are plain Latin words (styled SubRip/WebVTT sources "
             "in the model comparison); metadata-bearing sources are exercised by C08/C19 for panics and determinism only."),
     "C20": (True,
